@@ -28,7 +28,7 @@ VERIF = os.path.dirname(HARNESS)
 LEAN = os.path.join(VERIF, "lean")
 REPO = os.environ.get("BEZIER_REPO", "/repo")
 PY = "/venv/bin/python" if os.path.exists("/venv/bin/python") else sys.executable
-FILES = ["helpers.f90", "curve_intersection.f90", "curve.f90", "triangle.f90"]
+FILES = ["helpers.f90", "curve_intersection.f90", "curve.f90", "triangle.f90", "status.f90", "triangle_intersection.f90"]
 TABLES = ["SrcF90.lean", "SrcF90Kernels.lean", "SrcF90Pipeline.lean"]
 
 
